@@ -343,8 +343,13 @@ func storeTarget(addr ssa.Value) (loc, name string) {
 	case *ssa.Alloc:
 		return "fresh", "local"
 	case *ssa.FieldAddr:
-		if root, _ := storeTarget(a.X); root == "fresh" {
+		switch root, name := storeTarget(a.X); {
+		case root == "fresh":
 			return "fresh", "local"
+		case root == "global":
+			if _, direct := a.X.(*ssa.Global); direct {
+				return "global", name // a field of a package-level struct value
+			}
 		}
 		return "field", fieldKey(a)
 	case *ssa.IndexAddr:
